@@ -380,7 +380,20 @@ func genC20(t *rapid.T) *Case {
 		var sb strings.Builder
 		for i := rapid.IntRange(1, 3).Draw(t, "nstyled"); i > 0; i-- {
 			el := rapid.SampledFrom([]string{"span", "div", "p", "b"}).Draw(t, "sel")
-			sb.WriteString("<" + el + ` style="` + escAttr(genStyleFrom(t, append(sm.styleVocabulary(), "color", "COLOR", "-webkit-color")), '"') + `">t</` + el + ">")
+			st := genStyleFrom(t, append(sm.styleVocabulary(), "color", "COLOR", "-webkit-color"))
+			if rapid.IntRange(0, 4).Draw(t, "dupDecl") == 0 {
+				// the first declaration once more at the end, one of the two marked !important
+				first := st
+				if i := strings.Index(st, ";"); i >= 0 {
+					first = st[:i]
+				}
+				if rapid.Bool().Draw(t, "impFirst") {
+					st = first + " !important;" + st[len(first):] + ";" + first
+				} else {
+					st = st + ";" + first + " !important"
+				}
+			}
+			sb.WriteString("<" + el + ` style="` + escAttr(st, '"') + `">t</` + el + ">")
 		}
 		c.Input = BStr(sb.String())
 		c.Kind = "style-focus"
